@@ -729,53 +729,187 @@ func stressShared(rep *stressReport, files []fixture, n int, dur time.Duration, 
 	return map[string]any{"reads": reads, "documents": len(bySize)}
 }
 
+// stressRules: n goroutines write into ONE rules builder; every goroutine Sets keys of its own (k<g>_<j>) and
+// Appends anonymous rules and rules that carry a key of their own in between.  Rounds alternate between two kinds
+// of programs: "distinct" (every Set uses a fresh key: the premise of "every key once") and "repeated" (six keys
+// per goroutine, Set again and again: nothing is overwritten in place, the last Set wins).  After the goroutines
+// are joined: every own key resolves to the rule of its LAST Set, a key never Set is absent, Len counts the calls,
+// and the rules a goroutine stored stand in data in its program order (data is an interleaving of the programs).
+// The programs and the final state of the last round of each kind are returned for the comparison with the
+// model's interleaving-independent content (verifsys/checks/c16.py, theorem rules_interleaving_content_independent).
+type ruleCall struct {
+	set  bool
+	key  string // Set: the key; Append: the Key left in the rule
+	junk string // Set: the Key of the rule passed in (must be discarded)
+	val  string
+}
 
-// stressRules: n goroutines write their own keys into ONE rules builder (Set) and append anonymous rules in between;
-// afterwards every key must resolve to the rule that was stored under it, each exactly once.
+func (c ruleCall) script() string {
+	if c.set {
+		return "S:" + hxs(c.key) + ":" + hxs(c.junk) + ":" + hxs(c.val)
+	}
+	return "A:" + hxs(c.key) + ":" + hxs(c.val)
+}
+
+func rulesProgram(rng *rand.Rand, g, length int, distinct bool) []ruleCall {
+	out := make([]ruleCall, 0, length)
+	fresh := 0
+	for i := 0; i < length; i++ {
+		val := fmt.Sprintf("g%d.%d", g, i)
+		switch r := rng.Intn(20); {
+		case r < 12:
+			j := rng.Intn(6)
+			if distinct {
+				j = fresh
+				fresh++
+			}
+			out = append(out, ruleCall{set: true, key: fmt.Sprintf("k%d_%d", g, j), junk: "junk", val: val})
+		case r < 17:
+			out = append(out, ruleCall{key: "", val: val})
+		default:
+			// an appended rule that carries a key nobody Sets: it must stay unreachable for Get
+			out = append(out, ruleCall{key: fmt.Sprintf("a%d", g), val: val})
+		}
+	}
+	return out
+}
+
 func stressRules(rep *stressReport, n int, dur time.Duration, seed int64) map[string]any {
 	rounds, calls := 0, 0
+	finals := map[string]any{}
 	deadline := time.Now().Add(dur)
-	for rounds == 0 || time.Now().Before(deadline) {
+	for rounds < 2 || time.Now().Before(deadline) {
+		distinct := rounds%2 == 0
+		kind := "repeated"
+		if distinct {
+			kind = "distinct"
+		}
 		rounds++
-		b := catalog.VerifNewRulesBuilder(4)
 		const perG = 40
+		programs := make([][]ruleCall, n)
+		for g := 0; g < n; g++ {
+			programs[g] = rulesProgram(rand.New(rand.NewSource(seed*100003+int64(rounds)*1009+int64(g))), g, perG, distinct)
+		}
+		b := catalog.VerifNewRulesBuilder(4)
 		var wg sync.WaitGroup
+		start := make(chan struct{})
 		for g := 0; g < n; g++ {
 			g := g
 			wg.Add(1)
 			go func() {
 				defer wg.Done()
-				for i := 0; i < perG; i++ {
-					k := fmt.Sprintf("k%d_%d", g, i)
-					b.Set(k, catalog.Rule{ScalarValue: k})
-					if i%3 == 0 {
-						b.Append(catalog.Rule{Key: "", ScalarValue: "anon"})
+				<-start
+				for _, c := range programs[g] {
+					r := catalog.Rule{Key: c.key, TokenType: catalog.RuleTokenTypeString, ScalarValue: c.val}
+					if c.set {
+						r.Key = c.junk
+						b.Set(c.key, r)
+					} else {
+						b.Append(r)
 					}
 				}
 			}()
 		}
+		close(start)
 		wg.Wait()
 		calls += n * perG
 		rr := b.Rules()
 		bad := ""
-		for g := 0; g < n && bad == ""; g++ {
-			for i := 0; i < perG; i++ {
-				k := fmt.Sprintf("k%d_%d", g, i)
-				r, ok := rr.Get(k)
-				if !ok {
-					bad = "the key " + k + " is lost"
-					break
+		fail := func(format string, a ...any) {
+			if bad == "" {
+				bad = fmt.Sprintf(format, a...)
+			}
+		}
+		var keys, gets []string
+		for g := 0; g < n; g++ {
+			last := map[string]string{}
+			for _, c := range programs[g] {
+				if c.set {
+					last[c.key] = c.val
 				}
-				if r.Key != k || r.ScalarValue != k {
-					bad = fmt.Sprintf("Get(%q) returns the rule stored as %q (value %q)", k, r.Key, r.ScalarValue)
-					break
+			}
+			for j := 0; j < perG && (distinct || j < 6); j++ {
+				k := fmt.Sprintf("k%d_%d", g, j)
+				got := rulesGet(rr, k)
+				keys = append(keys, hxs(k))
+				gets = append(gets, got)
+				want := "none"
+				if v, ok := last[k]; ok {
+					want = "some:" + rulePairText(k, v)
+				}
+				if got != want {
+					fail("Get(%q) = %s, its only writer last stored %s", k, got, want)
+				}
+				if _, ok := last[k]; ok != rr.Has(k) {
+					fail("Has(%q) = %v, Set by its only writer: %v", k, rr.Has(k), ok)
+				}
+			}
+			ak := fmt.Sprintf("a%d", g)
+			keys = append(keys, hxs(ak))
+			gets = append(gets, rulesGet(rr, ak))
+			if rr.Has(ak) {
+				fail("Has(%q) is true: the key was only ever the Key of an appended rule", ak)
+			}
+		}
+		if rr.Len() != n*perG {
+			fail("Len() = %d after %d calls", rr.Len(), n*perG)
+		}
+		// data, split by the goroutine that stored the rule, must be that goroutine's program
+		perGor := make([][]string, n)
+		var all []string
+		_ = rr.Each(func(k string, v catalog.Rule) error {
+			all = append(all, rulePairText(k, v.ScalarValue))
+			var g, i int
+			if _, err := fmt.Sscanf(v.ScalarValue, "g%d.%d", &g, &i); err != nil || g < 0 || g >= n {
+				fail("a rule with the unknown value %q is stored", v.ScalarValue)
+				return nil
+			}
+			perGor[g] = append(perGor[g], rulePairText(k, v.ScalarValue))
+			return nil
+		})
+		progText := make([]string, n)
+		for g := 0; g < n; g++ {
+			want := make([]string, len(programs[g]))
+			scr := make([]string, len(programs[g]))
+			for i, c := range programs[g] {
+				want[i] = rulePairText(c.key, c.val)
+				scr[i] = c.script()
+			}
+			progText[g] = strings.Join(scr, ",")
+			if strings.Join(perGor[g], "|") != strings.Join(want, "|") {
+				fail("the rules stored by goroutine %d are %v, its calls were %v (lost, doubled or reordered)", g, perGor[g], want)
+			}
+		}
+		if distinct {
+			seen := map[string]int{}
+			for g := 0; g < n; g++ {
+				for _, c := range programs[g] {
+					if c.set {
+						seen[c.key]++
+					}
+				}
+			}
+			cnt := map[string]int{}
+			_ = rr.Each(func(k string, v catalog.Rule) error {
+				if strings.HasPrefix(k, "k") {
+					cnt[k]++
+				}
+				return nil
+			})
+			for k, c := range cnt {
+				if c != 1 || seen[k] != 1 {
+					fail("the key %s appears %d times in the order (Set %d times)", k, c, seen[k])
 				}
 			}
 		}
+		finals[kind] = map[string]any{
+			"programs": progText, "each": "[" + strings.Join(all, "|") + "]", "keys": keys, "gets": gets, "len": rr.Len(),
+		}
 		if bad != "" {
-			rep.violate("collections", "RulesBuilder under "+fmt.Sprint(n)+" concurrent writers: "+bad, "rules")
+			rep.violate("collections", "RulesBuilder under "+fmt.Sprint(n)+" concurrent writers ("+kind+" keys): "+bad,
+				fmt.Sprintf("rules seed %d round %d", seed, rounds))
 			break
 		}
 	}
-	return map[string]any{"rounds": rounds, "calls": calls}
+	return map[string]any{"rounds": rounds, "calls": calls, "finals": finals}
 }
